@@ -52,6 +52,18 @@ var c07Paths = []string{"registry", "jsonTop", "jsonNested", "jsonList", "jsonIt
 	// the value without id and name, carrying only a property of its own family
 	"jsonAnonTop", "jsonAnonNested", "jsonAnonList"}
 
+// … and the value nested under each item-valued property of an object, in both codecs (a property whose
+// reader or decoder assumes the common representation of its values)
+var c07ObjectItemFields = [][2]string{{"Attachment", "attachment"}, {"AttributedTo", "attributedTo"}, {"Context", "context"}, {"Generator", "generator"},
+	{"Icon", "icon"}, {"Image", "image"}, {"InReplyTo", "inReplyTo"}, {"Location", "location"}, {"Preview", "preview"}, {"Replies", "replies"},
+	{"URL", "url"}, {"Likes", "likes"}, {"Shares", "shares"}}
+
+func init() {
+	for _, f := range c07ObjectItemFields {
+		c07Paths = append(c07Paths, "jsonField:"+f[0], "gobField:"+f[0])
+	}
+}
+
 // c07AnonDoc: a document of the given type name with no id and one property that belongs to the type's own
 // family (an activity's actor, a collection's totalItems, an actor's inbox, a link's href, an object's content)
 func c07AnonDoc(name string) string {
@@ -168,6 +180,37 @@ func c07Run(cell c07Cell) (goType string, idOK, markerOK bool, it ap.Item, pan s
 						return nil
 					})
 				}
+			case "field":
+			default:
+			}
+			if strings.HasPrefix(cell.Via, "jsonField:") || strings.HasPrefix(cell.Via, "gobField:") {
+				field := cell.Via[strings.Index(cell.Via, ":")+1:]
+				term := ""
+				for _, f := range c07ObjectItemFields {
+					if f[0] == field {
+						term = f[1]
+					}
+				}
+				if strings.HasPrefix(cell.Via, "jsonField:") {
+					outer, _ := ap.UnmarshalJSON([]byte(`{"id":"https://example.com/outer","type":"Note","` + term + `":` + doc + `}`))
+					if o, ok := outer.(*ap.Object); ok {
+						it, _ = reflect.ValueOf(o).Elem().FieldByName(field).Interface().(ap.Item)
+					}
+				} else {
+					o := &ap.Object{ID: "https://example.com/outer", Type: ap.NoteType}
+					if v := mk(); v != nil {
+						reflect.ValueOf(o).Elem().FieldByName(field).Set(reflect.ValueOf(v))
+						b, err := ap.GobEncode(o)
+						if err == nil && len(b) > 0 {
+							outer, _ := ap.GobDecode(b)
+							if oo, ok := outer.(*ap.Object); ok {
+								it, _ = reflect.ValueOf(oo).Elem().FieldByName(field).Interface().(ap.Item)
+							}
+						}
+					}
+				}
+			}
+			switch cell.Via {
 			case "jsonForeignSibling":
 				for _, docs := range []string{doc + `,{"type":"PropertyValue","name":"x","value":"y"}`, `{"type":"PropertyValue","name":"x","value":"y"},` + doc} {
 					outer, _ := ap.UnmarshalJSON([]byte(`{"id":"https://example.com/outer","type":"Create","object":[` + docs + `]}`))
@@ -340,7 +383,7 @@ func init() {
 			byName[voc[i].Name] = &voc[i]
 		}
 		extra := []string{"", "Foo", "note", "Emoji", "IRI", "ItemCollection"}
-		c.Rule = fmt.Sprintf("exhaustive: %d vocabulary names + %d other names (empty, unknown, wrong case, internal pseudo types) x 14 paths (registry, JSON top-level / nested in an item position / in a list property / in a list held by an item position, gob top-level / nested / in a list property / in a list held by an item position, JSON next to a member of a type outside the vocabulary in an array in an item position (either order) and at the top level, JSON without id and name carrying only a property of the type's own family at top level / nested / in a list) x hooks unset/set (extending hooks that delegate to the defaults). Per cell: reflect type, id, marker property, family lists, IsObject/IsLink/IsCollection, family helper. Non-trivial = a vocabulary name.", len(names), len(extra))
+		c.Rule = fmt.Sprintf("exhaustive: %d vocabulary names + %d other names (empty, unknown, wrong case, internal pseudo types) x 40 paths (nested under each of the 13 item-valued properties of an object in both codecs; registry, JSON top-level / nested in an item position / in a list property / in a list held by an item position, gob top-level / nested / in a list property / in a list held by an item position, JSON next to a member of a type outside the vocabulary in an array in an item position (either order) and at the top level, JSON without id and name carrying only a property of the type's own family at top level / nested / in a list) x hooks unset/set (extending hooks that delegate to the defaults). Per cell: reflect type, id, marker property, family lists, IsObject/IsLink/IsCollection, family helper. Non-trivial = a vocabulary name.", len(names), len(extra))
 		for _, n := range append(append([]string{}, names...), extra...) {
 			for _, via := range c07Paths {
 				for _, hooks := range []bool{false, true} {
